@@ -1,7 +1,9 @@
 /-
 Line-protocol driver for the cross-validation model (Model/CV.lean), same protocol as harness/c12.cpp.
-Every op line is self-contained: it builds a labelled dataset with ids 0..n-1 and the given labels
-(createLabeledDataFromRange with maximum batch size m0) and applies one fold-construction function.
+
+Constructor lines are self-contained: they build a labelled dataset with ids 0..n-1 and the given labels
+(createLabeledDataFromRange with maximum batch size m0) and apply one fold-construction function
+(maximum batch size bs; 0 = unlimited).  They set the state (set, cur folds; the former cur becomes prev).
 
   indexed  k bs m0 n  l_1..l_n  idx_1..idx_n
   fully    k bs m0 n  l_1..l_n  order_1..order_n  part_1..part_n
@@ -10,7 +12,21 @@ Every op line is self-contained: it builds a labelled dataset with ids 0..n-1 an
   balanced k bs m0 n seed l_1..l_n        ! seq_1..seq_n        (observed dealing order = RecreationIndices.first)
   batch    k bs m0 n seed l_1..l_n        ! perm over the batches (observed)   (bs unused)
 
-usage: drv_c12 [input shape dims…]
+Follow-up lines work on the state (a history of one CVFolds object and the dataset variable it was built from):
+
+  show                         folds.size(), dataset(), validationFoldIndices / trainingFoldIndices / validation / training again
+  prev                         the same for the folds object that was current before the last construction (must be unchanged)
+  copy                         cur := copy of cur
+  starts s_1..s_m              cur := CVFolds(cur.dataset(), foldStart)
+  sets m len_1 i.. len_m i..   cur := CVFolds(cur.dataset(), explicit index sets)  (any order, any content below the batch count)
+  wsets / wstarts              the same two constructors on the weighted dataset (cur.dataset(), weights); state unchanged
+  again fn k bs seed a b       apply construction function number fn to the dataset variable (which the previous call reorganised)
+  nest w i fn k bs seed a b    set := cur.training(i) (w = 0) or cur.validation(i) (w = 1), made independent; then as `again`
+      fn: 0 indexed (idx_j = (a*j+b) mod k)   1 fully (order_j = (j+a) mod n, part_j = (a*j+b) mod k)
+          2 iid  3 samesize  4 balanced  5 batch     (2..5 need the observation)
+
+usage: drv_c12 cls|reg [input shape dims…]      (reg: regression labels — `balanced` goes through
+       detail::createCVSameSizeBalanced with a membership vector; label shape [2])
 -/
 import SharkVerif.Model.CV
 open SharkVerif.Dataset SharkVerif.CV
@@ -28,72 +44,176 @@ def showFolds (f : CVFolds Nat Nat) : R String := do
     let vd ← f.validation i
     let td ← f.training i
     pure s!"F{i}\{v={showNats v} t={showNats t} val={showDS vd} train={showDS td}}"
-  pure (s!"DS{showDS f.dataset} " ++ " ".intercalate parts)
+  pure (s!"DS{showDS f.dataset} " ++ " ".intercalate (s!"size={f.size}" :: parts))
 
-def run (ishape : Shape) (op : String) (a : List Nat) (obs : Option (List Nat)) : R String := do
+structure St where
+  set : Option (LabeledData Nat Nat) := none
+  cur : Option (CVFolds Nat Nat) := none
+  prev : Option (CVFolds Nat Nat) := none
+
+structure Cfg where
+  reg : Bool
+  ishape : Shape
+
+def needObs (obs : Option (List Nat)) : R (List Nat) := match obs with
+  | some o => pure o
+  | none => throw .undefined
+
+/-- `balanced` for both label kinds -/
+def balancedAny (cfg : Cfg) (set : LabeledData Nat Nat) (k : Nat) (o : List Nat) (bs : Nat) :
+    R (CVFolds Nat Nat × List Nat × List Nat) :=
+  if cfg.reg then do
+    let numClasses ← numberOfClasses set.labels
+    let labs ← ofOpt ((View.ofDataset set).elements.mapM id)
+    createCVSameSizeBalancedMembers set k (classMembers (labs.map (·.2)) numClasses) o bs
+  else createCVSameSizeBalanced set k o bs
+
+/-- construction function number `fn` on `set`; returns the text before the folds and the folds -/
+def construct (cfg : Cfg) (set : LabeledData Nat Nat) (fn k bs a b : Nat) (obs : Option (List Nat)) :
+    R (String × CVFolds Nat Nat) := do
+  let n := set.numberOfElements
+  require (n > 0 && k > 0)
+  match fn with
+  | 0 => do
+    let f ← createCVIndexed set k ((List.range n).map fun j => (a * j + b) % k) bs
+    pure ("", f)
+  | 1 => do
+    let f ← createCVFullyIndexed set k ((List.range n).map fun j => (j + a) % n) ((List.range n).map fun j => (a * j + b) % k) bs
+    pure ("", f)
+  | 2 => do
+    let o ← needObs obs
+    pure (s!"obs={showNats o} ", ← createCVIID set k o bs)
+  | 3 => do
+    let o ← needObs obs
+    pure (s!"obs={showNats o} ", ← createCVSameSize set k o bs)
+  | 4 => do
+    let o ← needObs obs
+    let (f, first, second) ← balancedAny cfg set k o bs
+    pure (s!"obs={showNats o} rec={showNats first}/{showNats second} ", f)
+  | 5 => do
+    let o ← needObs obs
+    pure (s!"obs={showNats o} ", ← createCVBatch set k o)
+  | _ => throw .undefined
+
+/-- `sets m len_1 i.. len_m i..` -/
+def parseSets : Nat → List Nat → Option (List (List Nat))
+  | 0, [] => some []
+  | 0, _ :: _ => none
+  | _ + 1, [] => none
+  | m + 1, len :: rest =>
+    if rest.length < len then none
+    else (parseSets m (rest.drop len)).map (rest.take len :: ·)
+
+def run (cfg : Cfg) (st : St) (op : String) (a : List Nat) (obs : Option (List Nat)) : R (String × St) := do
   let mk (m0 : Nat) (labels : List Nat) : R (LabeledData Nat Nat) := do
     require (labels.length > 0)
-    LabeledData.createFromRange (List.range labels.length) labels m0 ishape []
-  let needObs : R (List Nat) := match obs with
-    | some o => pure o
+    LabeledData.createFromRange (List.range labels.length) labels m0 cfg.ishape (if cfg.reg then [2] else [])
+  let fresh (pre : String) (f : CVFolds Nat Nat) (set : Option (LabeledData Nat Nat)) : R (String × St) := do
+    pure (pre ++ (← showFolds f), { set := set, cur := some f, prev := st.cur })
+  let cur : R (CVFolds Nat Nat) := match st.cur with
+    | some f => pure f
     | none => throw .undefined
   match op, a with
   | "indexed", k :: bs :: m0 :: n :: rest => do
-    require (rest.length = 2 * n && bs > 0)
+    require (rest.length = 2 * n)
     let set ← mk m0 (rest.take n)
-    showFolds (← createCVIndexed set k (rest.drop n) bs)
+    let f ← createCVIndexed set k (rest.drop n) bs
+    fresh "" f (some f.dataset)
   | "fully", k :: bs :: m0 :: n :: rest => do
-    require (rest.length = 3 * n && bs > 0)
+    require (rest.length = 3 * n)
     let set ← mk m0 (rest.take n)
     let order := (rest.drop n).take n
     require (order.all (· < n))
-    showFolds (← createCVFullyIndexed set k order (rest.drop (2 * n)) bs)
+    let f ← createCVFullyIndexed set k order (rest.drop (2 * n)) bs
+    fresh "" f (some f.dataset)
   | "iid", k :: bs :: m0 :: n :: _seed :: labels => do
-    require (labels.length = n && bs > 0 && k > 0)
-    let set ← mk m0 labels
-    let o ← needObs
-    pure (s!"obs={showNats o} " ++ (← showFolds (← createCVIID set k o bs)))
+    require (labels.length = n && k > 0)
+    let (pre, f) ← construct cfg (← mk m0 labels) 2 k bs 0 0 obs
+    fresh pre f (some f.dataset)
   | "samesize", k :: bs :: m0 :: n :: _seed :: labels => do
-    require (labels.length = n && bs > 0 && k > 0)
-    let set ← mk m0 labels
-    let o ← needObs
-    pure (s!"obs={showNats o} " ++ (← showFolds (← createCVSameSize set k o bs)))
+    require (labels.length = n && k > 0)
+    let (pre, f) ← construct cfg (← mk m0 labels) 3 k bs 0 0 obs
+    fresh pre f (some f.dataset)
   | "balanced", k :: bs :: m0 :: n :: _seed :: labels => do
-    require (labels.length = n && bs > 0 && k > 0)
-    let set ← mk m0 labels
-    let o ← needObs
-    let (f, first, second) ← createCVSameSizeBalanced set k o bs
-    pure (s!"obs={showNats o} rec={showNats first}/{showNats second} " ++ (← showFolds f))
+    require (labels.length = n && k > 0)
+    let (pre, f) ← construct cfg (← mk m0 labels) 4 k bs 0 0 obs
+    fresh pre f (some f.dataset)
   | "batch", k :: _bs :: m0 :: n :: _seed :: labels => do
     require (labels.length = n && k > 0)
     let set ← mk m0 labels
-    let o ← needObs
-    pure (s!"obs={showNats o} " ++ (← showFolds (← createCVBatch set k o)))
+    let (pre, f) ← construct cfg set 5 k 0 0 0 obs
+    fresh pre f (some set)
+  | "new", [] => pure ("", {})
+  | "wprobe", [] => pure ("", st)
+  | "debug", [] => pure ("", st)
+  | "show", [] => do pure (← showFolds (← cur), st)
+  | "prev", [] => match st.prev with
+    | some f => do pure (← showFolds f, st)
+    | none => throw .undefined
+  | "copy", [] => do
+    let f ← cur
+    pure (← showFolds f, { st with cur := some f })
+  | "starts", starts => do
+    let f ← cur
+    require (starts.length > 0)
+    let g ← CVFolds.ofStarts f.dataset starts
+    fresh "" g st.set
+  | "wstarts", starts => do
+    let f ← cur
+    require (starts.length > 0)
+    pure (← showFolds (← CVFolds.ofStarts f.dataset starts), st)
+  | "sets", m :: rest => do
+    let f ← cur
+    let sets ← ofOpt (parseSets m rest)
+    require (sets.all fun s => s.all (· < f.dataset.numberOfBatches))
+    fresh "" (CVFolds.ofSets f.dataset sets) st.set
+  | "wsets", m :: rest => do
+    let f ← cur
+    let sets ← ofOpt (parseSets m rest)
+    require (sets.all fun s => s.all (· < f.dataset.numberOfBatches))
+    pure (← showFolds (CVFolds.ofSets f.dataset sets), st)
+  | "again", [fn, k, bs, _seed, x, y] => do
+    let set ← match st.set with
+      | some s => pure s
+      | none => throw .undefined
+    let (pre, f) ← construct cfg set fn k bs x y obs
+    fresh pre f (some (if fn = 5 then set else f.dataset))
+  | "nest", [w, i, fn, k, bs, _seed, x, y] => do
+    let c ← cur
+    require (i < c.size)
+    let set ← if w = 0 then c.training i else c.validation i
+    -- a part with a batch listed twice holds elements twice; the harness oracle identifies elements by id and skips such parts
+    let ids := set.flat.map (·.1)
+    require (ids.eraseDups.length == ids.length)
+    let (pre, f) ← construct cfg set fn k bs x y obs
+    fresh pre f (some (if fn = 5 then set else f.dataset))
   | _, _ => throw .undefined
 
-def step (ishape : Shape) (line : String) : String :=
+def step (cfg : Cfg) (st : St) (line : String) : String × St :=
   let parts := line.trimAscii.toString.splitOn "!"
   let toks := ((parts.headD "").splitOn " ").filter (· ≠ "")
   let obs : Option (List Nat) := match parts with
     | [_, o] => ((o.splitOn " ").filter (· ≠ "")).mapM String.toNat?
     | _ => none
   match toks with
-  | [] => ""
+  | [] => ("", st)
   | op :: args =>
     match args.mapM String.toNat? with
-    | none => "bad-op"
+    | none => ("bad-op", st)
     | some a =>
-      match run ishape op a obs with
-      | .ok s => "ok " ++ s
-      | .error .exception => "exception"
-      | .error .undefined => "undefined"
+      match run cfg st op a obs with
+      | .ok (s, st') => ((if s.isEmpty then "ok" else "ok " ++ s), st')
+      | .error .exception => ("exception", st)
+      | .error .undefined => ("undefined", st)
 
-partial def loop (ishape : Shape) (h : IO.FS.Stream) (out : IO.FS.Stream) : IO Unit := do
+partial def loop (cfg : Cfg) (st : St) (h : IO.FS.Stream) (out : IO.FS.Stream) : IO Unit := do
   let line ← h.getLine
   if line.isEmpty then return ()
-  out.putStrLn (step ishape line)
+  let (s, st') := step cfg st line
+  out.putStrLn s
   out.flush
-  loop ishape h out
+  loop cfg st' h out
 
 def main (args : List String) : IO Unit := do
-  loop (args.filterMap String.toNat?) (← IO.getStdin) (← IO.getStdout)
+  let cfg : Cfg := ⟨args.head? == some "reg", args.filterMap String.toNat?⟩
+  loop cfg {} (← IO.getStdin) (← IO.getStdout)
